@@ -62,7 +62,7 @@ Definition read_line_plain (n : nat) (s : bytes) : rl :=
       end
   end.
 
-(* the dumping closure, as repaired (fix: commit): same control flow, every fragment that is
+(* the dumping closure, as repaired (fix 5ef6c8f): same control flow as bufio.ReadLine, every fragment that is
    returned is first handed to the dumpers with its line ending; a put-back '\r' is dumped by
    the next call *)
 Definition read_line_dump (n : nat) (s : bytes) : rl :=
